@@ -40,6 +40,9 @@ def get_interaction_matrix(x, y):
     for j1 in range(x.shape[1]):
         for j2 in range(y.shape[1]):
             l.append(x[:, j1] * y[:, j2])
+    if not l:
+        # A factor without columns (a single level under reduced coding): no interaction column
+        return np.zeros((x.shape[0], 0))
     return np.column_stack(l)
 
 
